@@ -115,11 +115,14 @@ where
         if i >= n {
             return Err(ErrorDecodingError::ErrorsOutsideRange);
         }
-        let mut idx = (n - i - 1) * stride;
-        if idx < data.len() {
+        // position in the block, which is made of every `stride`-th data
+        // codeword followed by every `stride`-th error codeword
+        let pos = n - i - 1;
+        if pos < n_data {
+            let idx = pos * stride;
             data[idx] = (GF(data[idx]) - *err).into();
         } else {
-            idx -= data.len();
+            let idx = (pos - n_data) * stride;
             error[idx] = (GF(error[idx]) - *err).into();
         }
     }
